@@ -212,14 +212,19 @@ def v_rank1(cfg, s):
     return len(s["input"]) == 1
 
 
+def _row(shape):
+    """a 1-D argument is the one-row layout (1, n)"""
+    return (1,) + shape if len(shape) == 1 else shape
+
+
 def v_auc(cfg, s):
-    x, y = s["x"], s["y"]
-    return x == y and _tasks(x, cfg.get("n_tasks", 1))
+    x, y = _row(s["x"]), _row(s["y"])
+    return x == y and len(x) == 2 and x[0] == cfg.get("n_tasks", 1)
 
 
 def v_auc_fn(cfg, s):
-    x, y = s["x"], s["y"]          # functional: each row its own curve
-    return x == y and len(x) in (1, 2)
+    x, y = _row(s["x"]), _row(s["y"])          # functional: each row its own curve
+    return x == y and len(x) == 2
 
 
 def v_wasserstein(cfg, s):
@@ -235,9 +240,11 @@ def v_text(cfg, s):
 
 
 def v_bleu(cfg, s):
-    """input: str | Sequence[str]; target: one list of references per translation (len(input) = len(target))"""
+    """input: str | Sequence[str]; target: Sequence[str | Sequence[str]] with len(input) = len(target).
+    encoding: input () = one string, (n,) = n strings; target () = [one reference string], (n,) = n reference lists"""
+    cnt = lambda sh: 1 if sh == () else sh[0]
     i, t = s["input"], s["target"]
-    return (i == () and t in ((), (1,))) or (len(i) == 1 and i == t)
+    return len(i) <= 1 and len(t) <= 1 and cnt(i) == cnt(t)
 
 
 def v_cov(cfg, s):
